@@ -17,7 +17,7 @@ def inOrdOp : Op → Bool
   | .fallback _ => false
   | .ooo _ _ _ _ => false
   | .nextId => true
-  | .sub _ => false
+  | .sub body => inOrdOps body
   | .ite _ t e => inOrdOps t && inOrdOps e && decide (docOps t = docOps e)
   | .finish => false
 def inOrdOps : List Op → Bool
@@ -42,6 +42,48 @@ theorem chunksDoc_flushed (b : Builder) : chunksDoc b.flushed = b.bdoc := by
   split
   · rename_i h; simp at h; simp [h]
   · simp [chunksDoc_append, chunksDoc, Chunk.doc]
+
+theorem chunksDoc_allOoo (cs : List Chunk) (h : cs.any (fun c => !c.isOoo) = false) : chunksDoc cs = [] := by
+  induction cs with
+  | nil => rfl
+  | cons c cs ih =>
+    simp only [List.any_cons, Bool.or_eq_false_iff] at h
+    cases c <;> simp_all [Chunk.isOoo, chunksDoc, Chunk.doc]
+
+/-- the repaired `append` keeps the document order (fix-c07-2) -/
+theorem append_bdoc (b o : Builder) : (b.append o).bdoc = b.bdoc ++ o.bdoc := by
+  unfold Builder.append
+  by_cases h : o.chunks.any (fun c => !c.isOoo) = true
+  · simp only [h, if_true, Builder.bdoc, chunksDoc_append, List.nil_append]
+    have := chunksDoc_flushed b
+    simp only [Builder.bdoc] at this
+    rw [this]; simp
+  · have h' : o.chunks.any (fun c => !c.isOoo) = false := by simpa using h
+    simp only [h', Bool.false_eq_true, if_false, Builder.bdoc, chunksDoc_append, chunksDoc_allOoo _ h']
+    simp
+
+theorem append_chunks_mem (b o : Builder) (c : Chunk) (h : c ∈ (b.append o).chunks) :
+    c ∈ b.chunks ∨ c = Chunk.sync b.syncBuf ∨ c ∈ o.chunks := by
+  unfold Builder.append at h
+  by_cases ha : o.chunks.any (fun c => !c.isOoo) = true
+  · simp only [ha, if_true, List.mem_append] at h
+    rcases h with h | h
+    · unfold Builder.flushed at h
+      split at h
+      · exact Or.inl h
+      · rcases List.mem_append.1 h with h | h
+        · exact Or.inl h
+        · exact Or.inr (Or.inl (by simpa using h))
+    · exact Or.inr (Or.inr h)
+  · have h' : o.chunks.any (fun c => !c.isOoo) = false := by simpa using ha
+    simp only [h', Bool.false_eq_true, if_false, List.mem_append] at h
+    rcases h with h | h
+    · exact Or.inl h
+    · exact Or.inr (Or.inr h)
+
+theorem append_fields (b o : Builder) :
+    (b.append o).pending = b.pending ∧ (b.append o).pendingOoo = b.pendingOoo := by
+  unfold Builder.append; split <;> simp
 
 theorem exec_bdoc (env : Env) : ∀ (n : Nat) (ops : List Op) (b : Builder), opsSize ops ≤ n → inOrdOps ops = true →
     (execOps env ops b).bdoc = b.bdoc ++ docOps ops ∧
@@ -102,7 +144,21 @@ theorem exec_bdoc (env : Env) : ∀ (n : Nat) (ops : List Op) (b : Builder), ops
         refine ⟨?_, ?_⟩
         · rw [this.1]; simp [Builder.bdoc, Builder.nextId]
         · intro hc; exact this.2 (by simpa [Builder.nextId] using hc)
-      | sub body => simp [inOrdOp] at ho
+      | sub body =>
+        simp only [opSize] at h
+        simp only [inOrdOp] at ho
+        simp only [execOps, execOp, docOps, docOp]
+        have h1 := ih body (Builder.new b.id) (by omega) ho
+        have h2 := ih os (b.append (execOps env body (Builder.new b.id))) (by omega) hos
+        refine ⟨?_, ?_⟩
+        · rw [h2.1, append_bdoc, h1.1]; simp [Builder.bdoc, Builder.new, chunksDoc]
+        · intro hc
+          apply h2.2
+          intro c hcm
+          rcases append_chunks_mem _ _ c hcm with hcm | hcm | hcm
+          · exact hc c hcm
+          · subst hcm; rfl
+          · exact h1.2 (by simp [Builder.new]) c hcm
       | ite fut t e =>
         simp only [opSize] at h
         simp only [inOrdOp, Bool.and_eq_true, decide_eq_true_eq] at ho
@@ -295,7 +351,8 @@ theorem exec_fields (env : Env) : ∀ (n : Nat) (ops : List Op) (b : Builder), o
       · exact ih os _ (by omega)
       · rename_i body
         have := ih os (b.append (execOps env body (Builder.new b.id))) (by omega)
-        simpa [Builder.append] using this
+        have ha := append_fields b (execOps env body (Builder.new b.id))
+        exact ⟨this.1.trans ha.1, this.2.trans ha.2⟩
       · rename_i fut t e
         split
         · have h1 := ih t b (by omega)
@@ -404,9 +461,14 @@ theorem exec_phi (env : Env) : ∀ (n : Nat) (ops : List Op) (b : Builder), opsS
         have := ih os (b.append (execOps env body (Builder.new b.id))) (by omega)
         have h0 : (Builder.new b.id).phi = 0 := by simp [Builder.new, Builder.phi]
         have h2 : ∀ o : Builder, (b.append o).phi ≤ b.phi + o.phi := by
-          intro o; unfold Builder.append Builder.phi
-          simp only [csum_append]
-          cases b.syncBuf <;> cases o.syncBuf <;> simp <;> omega
+          intro o; unfold Builder.append
+          have hf := csum_flushed b
+          by_cases ha : o.chunks.any (fun c => !c.isOoo) = true
+          · simp only [ha, if_true, Builder.phi, csum_append, List.nil_append] at hf ⊢
+            omega
+          · have ha' : o.chunks.any (fun c => !c.isOoo) = false := by simpa using ha
+            simp only [ha', Bool.false_eq_true, if_false, Builder.phi, csum_append]
+            by_cases hb : b.syncBuf = [] <;> by_cases ho : o.syncBuf = [] <;> simp [hb, ho] <;> omega
         have := h2 (execOps env body (Builder.new b.id))
         omega
       · rename_i fut t e
@@ -518,9 +580,11 @@ theorem pollStep_mu (env : Env) (b : Builder) : StepMu b (pollStep env b) := by
             · simp [StepMu, Builder.mu, hpend, hch, hpo]
             · split
               · simp [StepMu, Builder.mu, hpend, hch, hpo]
-              · have := spliceInPlace_csum (resolveOoo env p).chunks
-                simp only [StepMu, Builder.mu, hpend, hch, hpo, csum_foldl_pushFront, posum_cons, pendW, csum_nil]
-                omega
+              · split
+                · simp [StepMu, Builder.mu, hpend, hch, hpo]
+                · have := spliceInPlace_csum (resolveOoo env p).chunks
+                  simp only [StepMu, Builder.mu, hpend, hch, hpo, csum_foldl_pushFront, posum_cons, pendW, csum_nil]
+                  omega
           · have := spliceTemplate_csum (resolveOoo env p).chunks (b.syncBuf ++ pushStart (resolveOoo env p).id) b.chunks
             simp only [StepMu, Builder.mu, hpend, hch, hpo, posum_cons, pendW, csum_nil] at this ⊢
             omega
@@ -555,7 +619,9 @@ theorem oooReadyStep_not_stuck (env : Env) (b : Builder) (p : PendOoo) : (oooRea
   split
   · split
     · rfl
-    · split <;> rfl
+    · split
+      · rfl
+      · split <;> rfl
   · rfl
 
 theorem pollStep_not_stuck (env : Env) (b : Builder) : (pollStep env b).isStuck = false := by
@@ -699,9 +765,9 @@ theorem exec_wf (env : Env) (D : List FId) (m : Nat) (hm : env.now ≤ m) : ∀ 
       · rename_i body
         apply ih os _ (by omega) hfo
         intro c hcm
-        simp only [Builder.append, List.mem_append] at hcm
-        rcases hcm with hcm | hcm
+        rcases append_chunks_mem _ _ c hcm with hcm | hcm | hcm
         · exact hc c hcm
+        · subst hcm; trivial
         · exact ih body (Builder.new b.id) (by omega) (fun f hf' => hf f (Or.inl (by simp [futsOp, hf'])))
             (by simp [Builder.new]) c hcm
       · rename_i fut t e
@@ -817,14 +883,16 @@ theorem pollStep_wf (env : Env) (D : List FId) (n : Nat) (hn : env.now ≤ n) (b
             · exact ⟨hc, hp, hrest⟩
             · split
               · exact ⟨hc, hp, hrest⟩
-              · refine ⟨?_, hp, hrest⟩
-                intro c hcm
-                rcases mem_foldl_pushFront _ _ c hcm with hcm | hcm
-                · unfold spliceInPlace at hcm
-                  rcases mem_foldl_spliceFn _ _ c hcm with hcm | hcm
-                  · exact hr c (by simpa using hcm)
-                  · simp at hcm
-                · exact hc c hcm
+              · split
+                · exact ⟨hc, hp, hrest⟩
+                · refine ⟨?_, hp, hrest⟩
+                  intro c hcm
+                  rcases mem_foldl_pushFront _ _ c hcm with hcm | hcm
+                  · unfold spliceInPlace at hcm
+                    rcases mem_foldl_spliceFn _ _ c hcm with hcm | hcm
+                    · exact hr c (by simpa using hcm)
+                    · simp at hcm
+                  · exact hc c hcm
           · refine ⟨?_, hp, hrest⟩
             intro c hcm
             unfold spliceTemplate at hcm
@@ -924,7 +992,9 @@ theorem pollStep_buf (env : Env) (b : Builder) : StepBuf b (pollStep env b) := b
             · exact Or.inr rfl
             · split
               · exact Or.inr rfl
-              · trivial
+              · split
+                · exact Or.inr rfl
+                · trivial
           · trivial
         · unfold yieldStep; split
           · exact Or.inr rfl
@@ -980,7 +1050,9 @@ theorem pollStep_first (env : Env) (b : Builder) (h : AllReady env b) : StepFirs
             · exact Or.inr (Or.inl rfl)
             · split
               · exact Or.inr (Or.inl rfl)
-              · trivial
+              · split
+                · exact Or.inr (Or.inl rfl)
+                · trivial
           · trivial
         · rename_i hr; exact absurd (h.2 p (by simp [hpo])) hr
       · rename_i hpo
@@ -1234,7 +1306,9 @@ theorem pollStep_itemOk (env : Env) (b : Builder) : (pollStep env b).itemOk := b
           split
           · split
             · trivial
-            · split <;> trivial
+            · split
+              · trivial
+              · split <;> trivial
           · trivial
         · exact yieldStep_itemOk _ _ (by simp)
       · exact yieldStep_itemOk _ _ (by simp)
